@@ -37,6 +37,19 @@ def check_spec_objects(ctx, spec, start, N, part="objects"):
             objs = spec.get_objects(n)
         except NotImplementedError:
             ctx.label("generation-refused")
+            # a refusal must not leave half-built levels behind: asking again
+            # either refuses again or gives the right objects
+            for m in (n, n, max(0, n - 1)):
+                try:
+                    again = spec.get_objects(m)
+                except NotImplementedError:
+                    continue
+                except Exception as e:
+                    ctx.fail(part + "-raises", f"second spec.get_objects({m}) after a refusal raised {describe_exc(e)}", f"{part}-raises/{type(e).__name__}")
+                    return None
+                w = {k: sorted(v) for k, v in brute.objects_by_param(start, m).items() if v}
+                g = {k: sorted(map(str, v)) for k, v in again.items() if v}
+                ctx.check(g == w, part + "-after-refusal", f"get_objects({m}) first refused (NotImplementedError), then returned {g} where the true objects are {w}")
             return None
         except Exception as e:
             ctx.fail(part + "-raises", f"spec.get_objects({n}) raised {describe_exc(e)}", f"{part}-raises/{type(e).__name__}")
